@@ -10,13 +10,30 @@ THEOREMS = ["paging_facts_expected", "comparator_strict_total", "order_closed_fo
             "cursor_provider_exact", "paging_tokens_exact", "strategy_independent", "count_exact", "cursor_iter_exact", "cursor_seek_exact", "pinned_arithmetic_violates",
             "coerced_keys", "int_float_key_not_nan", "float_comparator_facts_expected", "float_comparator_total", "nan_sorts_first", "int_float_key_monotone",
             "cursor_provider_exact_all", "iterator_all_of_exact", "iterator_any_of_exact", "cursor_scanner_exact",
-            "sort_accepted_iff", "sort_field_error_exact", "dotted_sort_field_refused", "sorting_scan_error_exact", "id_first_exact", "llrb_insert_is_sorted_insert"]
+            "sort_accepted_iff", "sort_field_error_exact", "dotted_sort_field_refused", "sorting_scan_error_exact", "id_first_exact", "llrb_insert_is_sorted_insert",
+            "query_ids_total", "iterate_ids_total", "history_exact", "history_exact_no_bucket"]
 TABLE = ["paging_facts_expected (Generated/PagingFacts.lean: shape of setPaging, of maxResults := targetOffset + targetLimit with its overflow guard, and of the eviction test, regenerated from boltz/query_scanners.go)",
          "float_comparator_facts_expected (Generated/PagingFacts.lean: branch chain of float64SymbolComparator.Compare incl. the NaN branch, regenerated from boltz/query_sort.go)"]
 
 
+MUTATORS = ("ad", "ada", "adx", "sk", "li", "pr")
+
+
+def _is_hist(case):
+    return case.startswith("h ")
+
+
+def _h(case):
+    """history case: h <rows> <filter> <sort> <skip> <limit> <store> <op>/<op>/..."""
+    f = case.split(" ")
+    return dict(rows=f[1], filter=f[2], sort=f[3], skip=f[4], limit=f[5], store=f[6], ops=f[7].split("/"))
+
+
 def _f(case):
     f = case.split(" ")
+    if _is_hist(case):
+        h = _h(case)
+        return dict(h, prov="history", seek="-")
     return dict(rows=f[1], filter=f[2], sort=f[3], skip=f[4], limit=f[5], prov=f[6], seek=f[7],
                 store=f[8] if len(f) > 8 else "root")
 
@@ -27,6 +44,23 @@ def _nrows(ds):
 
 def nontrivial(case, impl):
     """non-trivial: at least 2 rows match and paging or sorting has something to do"""
+    if _is_hist(case):
+        # non-trivial history: an execution that matches >= 2 rows comes after a mutator of the query object
+        h = _h(case)
+        secs = impl.split("|")
+        if impl.startswith("panic") or len(secs) != len(h["ops"]):
+            return None
+        seen_mut = False
+        for op, sec in zip(h["ops"], secs):
+            if op.split(":")[0] in MUTATORS:
+                seen_mut = True
+            elif seen_mut and "#" in sec:
+                try:
+                    if int(sec.split("#")[1]) >= 2:
+                        return (h["rows"], h["filter"], h["sort"], h["skip"], h["limit"], "/".join(h["ops"]), h["store"])
+                except ValueError:
+                    pass
+        return None
     c = _f(case)
     if impl.startswith("ids=err") or impl.startswith("panic"):
         return None
@@ -42,6 +76,15 @@ def nontrivial(case, impl):
 
 
 def describe(case, impl, model, spec):
+    if _is_hist(case):
+        h = _h(case)
+
+        def per_op(line):
+            secs = (line or "").split("|")
+            return [f"{op} -> {sec}" for op, sec in zip(h["ops"], secs)] if len(secs) == len(h["ops"]) else line
+        return {"case": case, "rows": flow.split_rows(h["rows"]) or h["rows"], "query_as_parsed": dict(filter=h["filter"], sort=h["sort"],
+                skip=h["skip"], limit=h["limit"]), "store": h["store"], "calls_on_the_one_query_object": h["ops"],
+                "impl": per_op(impl), "model": per_op(model), "spec": per_op(spec)}
     c = _f(case)
 
     def sec(line):
@@ -53,9 +96,17 @@ def describe(case, impl, model, spec):
 
 def histogram(lines):
     h = {"rows": Counter(), "sort": Counter(), "skip": Counter(), "limit": Counter(), "filter": Counter(),
-         "provider": Counter(), "seek": Counter(), "store": Counter()}
+         "provider": Counter(), "seek": Counter(), "store": Counter(), "history_ops": Counter(), "history_shape": Counter()}
     for l in lines:
         c = _f(l)
+        if _is_hist(l):
+            names = [o.split(":")[0] for o in c["ops"]]
+            for o in names:
+                h["history_ops"][o] += 1
+            first_exec = next((i for i, o in enumerate(names) if o in ("run", "cur", "it", "get")), None)
+            first_adopt = next((i for i, o in enumerate(names) if o in ("ad", "ada", "adx")), None)
+            h["history_shape"]["no adopt" if first_adopt is None else
+                               ("adopt after an execution/read" if first_exec is not None and first_exec < first_adopt else "adopt first")] += 1
         n = _nrows(c["rows"])
         h["rows"]["no bucket" if c["rows"] == "-" else str(n)] += 1
         h["sort"][flow.sort_histogram(c["sort"])] += 1
@@ -68,7 +119,41 @@ def histogram(lines):
     return {k: dict(sorted(v.items())) for k, v in h.items()}
 
 
+def _hist_candidates(case):
+    f = case.split(" ")
+    out = []
+
+    def put(i, v):
+        g = list(f)
+        g[i] = v
+        out.append(" ".join(g))
+    ops = f[7].split("/")
+    for i in range(len(ops)):
+        if len(ops) > 1:
+            put(7, "/".join(ops[:i] + ops[i + 1:]))
+    for i, o in enumerate(ops):
+        if o.split(":")[0] in ("ad", "ada", "adx"):
+            name, arg = o.split(":", 1)
+            for v in flow.sort_variants(arg):
+                put(7, "/".join(ops[:i] + [name + ":" + v] + ops[i + 1:]))
+    if f[6] != "root":
+        put(6, "root")
+    if f[2] != "true":
+        put(2, "true")
+    for v in flow.sort_variants(f[3]):
+        put(3, v)
+    for v in flow.row_variants(f[1]):
+        put(1, v)
+    for v in flow.num_variants(f[4]):
+        put(4, v)
+    for v in flow.num_variants(f[5]):
+        put(5, v)
+    return out
+
+
 def candidates(case):
+    if _is_hist(case):
+        return _hist_candidates(case)
     f = case.split(" ")
     out = []
 
@@ -111,7 +196,12 @@ RULE = ("300 (quick) / 3000 (thorough) random datasets of 0-7 rows over tiny val
         "stored fields (shortDesc, sortBy, idx, limitX, skipper, basc, nota, android, betweenx, t_desc, the quoted identifier 'desc', ...); thorough adds every skip x "
         "limit pool pair x 14 sort specs on datasets of 0..6 rows. Each case runs QueryIds, QueryIdsC twice on one query object (+ the "
         "skip/limit left in it), QueryWithCursorC (bucket cursor and the provider), IterateIds drained, Seek on the unpaged cursor, the sub-query "
-        "cursor scanner of the owner's things, and QueryIdsC with a foreign-parsed query. non-trivial = at least two rows match and a sort field, "
+        "cursor scanner of the owner's things, and QueryIdsC with a foreign-parsed query. "
+        "+ 80/800 datasets x 30 HISTORIES on one parsed query object (case lines `h`): 2-11 calls, executions (QueryIdsC, QueryWithCursorC, "
+        "IterateIds drained) and reads (GetSortFields) interleaved with the mutators of the ast.Query interface (AdoptSortFields of another "
+        "parsed query incl. one without sort clause, with alias names, or parsed against a foreign symbol table; SetSkip / SetLimit over the "
+        "boundary pool; SetPredicate), every mutator followed by an execution, 4 of 5 histories starting with an execution or a read; "
+        "a history is non-trivial when an execution matching >= 2 rows follows a mutator. non-trivial = at least two rows match and a sort field, "
         "skip or limit is present; distinct = (dataset, filter, sort, skip, limit, provider, store)")
 
 
